@@ -347,7 +347,10 @@ func (index *PatternIndex) mod(ctx *Context, pairs []piPair, id string, op piOp)
 		for _, x := range sorted {
 			var xPair piPair
 			xPair.key = k
-			xPair.val = picast(ctx, x)
+			// Not picast(x): mod casts every pair value itself, and
+			// casting twice turns null into "S_null", which a
+			// search (that casts once) never finds.
+			xPair.val = x
 			morePairs = append(morePairs, xPair)
 		}
 		rest = append(morePairs, rest...)
